@@ -6,6 +6,8 @@ import EEM.Proto
 import EEM.Model.DailyCurve
 import EEM.Gen.SafeDivide
 import EEM.Model.Caltrack
+import EEM.Model.Splits
+import EEM.Gen.SplitCandidates
 
 open EEM EEM.Proto EEM.Model
 
@@ -145,6 +147,60 @@ def opHow (args : List String) : String :=
   | some [t] => s!"ok {Model.Caltrack.hourOfWeek t} {Time.monthOf t} {Time.weekday (Time.dayOf t)} {Time.hourOf t} {Time.yearOf t} {Time.domOf t}"
   | _ => "bad-op"
 
+open EEM.Model.Splits in
+def showComponent (c : Component) : String :=
+  let p := match c.pre with | .fw => "fw" | .wd => "wd" | .we => "we"
+  let ss := c.seasons.map fun | .su => "su" | .sh => "sh" | .wi => "wi"
+  p ++ "-" ++ "_".intercalate ss
+
+/-- `parse <combo>` -/
+def opParse (args : List String) : String :=
+  match args with
+  | [s] => match Model.Splits.parseCombo s with
+    | some c => "ok " ++ " ".intercalate (c.map showComponent)
+    | none => "ok KeyError"
+  | _ => "bad-op"
+
+def parseBool01 : String → Option Bool
+  | "0" => some false | "1" => some true | _ => none
+
+/-- `trim <su> <sh> <wi> <wdwe> <n_su> <n_sh> <n_wi> <we_su> <we_sh> <we_wi>`: trimmed generated candidates -/
+def opTrim (args : List String) : String :=
+  match args with
+  | [a, b, c, d, n1, n2, n3, w1, w2, w3] =>
+    match parseBool01 a, parseBool01 b, parseBool01 c, parseBool01 d, [n1, n2, n3, w1, w2, w3].mapM parseNat with
+    | some a, some b, some c, some d, some [n1, n2, n3, w1, w2, w3] =>
+      let cnt : Model.Splits.Counts :=
+        { season := fun | .su => n1 | .sh => n2 | .wi => n3, weekend := fun | .su => w1 | .sh => w2 | .wi => w3 }
+      "ok " ++ " ".intercalate (Model.Splits.trim { su := a, sh := b, wi := c, wdwe := d } cnt Gen.Splits.candidates)
+    | _, _, _, _, _ => "bad-op"
+  | _ => "bad-op"
+
+/-- `route <combo> <7 labels, comma separated> <season string> <dow>` -/
+def opRoute (args : List String) : String :=
+  match args with
+  | [combo, wmap, season, dow] =>
+    match Model.Splits.parseCombo combo, parseNat dow with
+    | some c, some dow =>
+      "ok " ++ " ".intercalate ((Model.Splits.segmentsOf (wmap.splitOn ",") c season dow).map showComponent)
+    | none, _ => "ok KeyError"
+    | _, _ => "bad-op"
+  | _ => "bad-op"
+
+/-- `best <name> <crit> <name> <crit> ...` -/
+def opBest (args : List String) : String :=
+  let rec pairs : List String → Option (List (String × Float))
+    | [] => some []
+    | n :: v :: rest => do let f ← parseFloat v; let r ← pairs rest; pure ((n, f) :: r)
+    | _ => none
+  match pairs args with
+  | some ps =>
+    let crit := fun n => (ps.lookup n).getD (0.0 / 0.0)
+    match Model.Splits.best crit (ps.map (·.1)) with
+    | some b => "ok " ++ b
+    | none => "ok None"
+  | none => "bad-op"
+
 def step (line : String) : String :=
   match words line with
   | "submodel" :: args => opPredictSubmodel args
@@ -158,6 +214,10 @@ def step (line : String) : String :=
   | "bins" :: args => opBins args
   | "occbins" :: args => opOccBins args
   | "how" :: args => opHow args
+  | "parse" :: args => opParse args
+  | "trim" :: args => opTrim args
+  | "route" :: args => opRoute args
+  | "best" :: args => opBest args
   | _ => "bad-op"
 
 partial def loop (h : IO.FS.Stream) (out : IO.FS.Stream) : IO Unit := do
